@@ -29,7 +29,7 @@ ASSUMPTIONS = [
     "ACL patterns never split the rows of one rulebook (rule,key): they are the rulebook's patterns, widened (*, truncation + ~) or narrowed to one key",
     "rulebook logics emit only the row or its negation (default, undo_redo, ordered)",
 ]
-FLOORS = {"quick": {"patches_checked": 2000, "commands_checked": 3000, "uncovered_rows_checked": 3000, "cant_delete_rows_checked": 150, "composition_checked": 2000, "front_runs_with_acl": 300, "front_runs_empty_acl": 10, "front_runs_acl_safe": 150, "flat_vendor_cases": 400, "second_devices_with_shared_acl": 800, "shared_subrule_acl_cases": 300, "front_runs_filter_acl": 150, "deploy_front_runs": 500, "cases_with_negated_rows_in_new": 400, "front_runs_with_generator_selection": 150},
+FLOORS = {"quick": {"patches_checked": 2000, "commands_checked": 3000, "uncovered_rows_checked": 3000, "cant_delete_rows_checked": 150, "composition_checked": 2000, "front_runs_with_acl": 300, "front_runs_empty_acl": 10, "front_runs_acl_safe": 150, "flat_vendor_cases": 400, "flat_cases_with_negated_rows_in_new": 80, "second_devices_with_shared_acl": 800, "shared_subrule_acl_cases": 300, "front_runs_filter_acl": 150, "deploy_front_runs": 500, "cases_with_negated_rows_in_new": 400, "front_runs_with_generator_selection": 150},
           "thorough": {"patches_checked": 60000, "commands_checked": 90000, "uncovered_rows_checked": 90000, "cant_delete_rows_checked": 4000, "composition_checked": 60000}}
 VENDORS = c01.BLOCK_VENDORS
 
@@ -188,7 +188,16 @@ def check_case(seed, acc, flat=False, shared=False, negnew=False):
         acc.count("shared_subrule_acl_cases")
     v, prefix, exitw, hw, fmt = c01.vendor_env(vname)
     exits = {exitw} | c01.EXIT_EXTRA
-    rtext, atext = RB.render(U), A.render(acl)
+    if flat and negnew:
+        # the rulebook knows rows spelled as removals (a catch-all for them, as the shipped Junos-like rulebooks end in `~ %global`), so a
+        # `delete <statement>` row that gets through the ACL step becomes a command
+        U_text = list(U) + [RB.Rule("delete ~")]
+        # make protection matter: half of the top-level ACL rules are explicitly not deletable
+        prng = random.Random(seed ^ 0x9C0)
+        for r_ in acl:
+            if not r_.glob and prng.random() < 0.5:
+                r_.cant_delete, r_.explicit_cd = [True], [True]
+    rtext, atext = RB.render(U_text if (flat and negnew) else U), A.render(acl)
     if not atext.strip():
         return None
     w = {"seed": seed, "flat": flat, "shared": shared, "negnew": negnew, "vendor": vname, "rulebook": rtext, "acl": atext, "old": plain(old)}
@@ -205,8 +214,10 @@ def check_case(seed, acc, flat=False, shared=False, negnew=False):
     if negnew:
         # the desired configuration also holds explicit negations of some of its rows: the ACL step must not let the negation of
         # a not-deletable row through (it would become a removal command)
-        new = add_exact_negations(random.Random(seed ^ 0x4E), new, prefix, 0.3)
+        new = add_exact_negations(random.Random(seed ^ 0x4E), new, prefix, 0.6 if flat else 0.3)
         acc.count("cases_with_negated_rows_in_new")
+        if flat:
+            acc.count("flat_cases_with_negated_rows_in_new", 1 if any(r.startswith(prefix + " ") for r in new) else 0)
     w["new"] = plain(new)
     try:
         diff, patch = _diff_and_patch(c01.Dev(hw), old, new, cacl, None, False, rb=rb)
@@ -501,3 +512,5 @@ def run_shard(spec, acc):
             check_case(rng.randrange(1 << 48), acc, shared=True)
         if j % 4 == 1:
             check_case(rng.randrange(1 << 48), acc, negnew=True)
+        if j % 8 == 6:
+            check_case(rng.randrange(1 << 48), acc, flat=True, negnew=True)  # `delete <statement>` rows in a Junos-like generator output
